@@ -69,6 +69,11 @@ structure Params where
   /-- rows `(case value, nil-checked cfg, constructor)`; 1 = tlcp, 2 = tls -/
   table : List (Nat × Nat × Nat)
   defaultUnsupported : Bool
+  /-- `conn()` runs `detect` at every `Read`/`Write` made while no stack is installed and keeps
+  nothing of a failed detection besides the partly read header (facts
+  `connDetectsWheneverUnwrapped`, `failureKeptFields`, `wrappedOnlyFromDispatch`).  `false`: the
+  outcome of the FIRST detection is final (a `sync.Once`, a stored error). -/
+  retriesDetect : Bool := true
   deriving Repr
 
 /-- `ProtocolDetectConn` -/
@@ -194,5 +199,49 @@ def attempts (P : Params) (cfg : Cfg) : Nat → SC → List Route × SC
     else
       let rest := attempts P cfg k r.2
       (r.1 :: rest.1, rest.2)
+
+/-! ### the public object
+
+What a server application holds is the `ProtocolSwitchServerConn` returned by `Accept`; it
+calls `Read` / `Write` on it, which go through `conn()`.  `kept` is whatever `conn()` keeps of an
+earlier detection besides `wrapped` — nothing in the code as it is (`retriesDetect`), the first
+outcome when the detection is wrapped into a once-only idiom. -/
+
+structure Pub where
+  c : SC
+  kept : Option Route := none
+  deriving Repr, DecidableEq
+
+/-- one `Read` / `Write` on the public object: the stack that serves the call, or the error the
+caller gets -/
+def call (P : Params) (cfg : Cfg) (u : Pub) : Route × Pub :=
+  if P.retriesDetect then
+    let r := detect P cfg u.c
+    (r.1, { u with c := r.2 })
+  else
+    match u.kept with
+    | some r => (r, u)
+    | none =>
+      let r := detect P cfg u.c
+      (r.1, { c := r.2, kept := some r.1 })
+
+/-- `k` calls in a row, whatever they answer (the application goes on after a deadline expiry,
+and may go on using a served connection) -/
+def calls (P : Params) (cfg : Cfg) : Nat → Pub → List Route × Pub
+  | 0, u => ([], u)
+  | k + 1, u =>
+    let r := call P cfg u
+    let rest := calls P cfg k r.2
+    (r.1 :: rest.1, rest.2)
+
+/-- number of reads of the script that time out -/
+def nTimeouts : List Ev → Nat
+  | [] => 0
+  | .timeout :: r => nTimeouts r + 1
+  | .data _ :: r => nTimeouts r
+
+def Route.isIO : Route → Bool
+  | .io _ => true
+  | _ => false
 
 end Gotlcp.Model.PA
